@@ -101,7 +101,8 @@ Definition trim_space (s : list byte) : list byte := rev (drop_space (rev (drop_
 Definition nonempty (s : list byte) : bool := match s with [] => false | _ => true end.
 
 (* parseIgnoreComment *)
-Definition parse_ignore_comment (c : list byte) : option (dkind * list rule) :=
+Definition parse_ignore_comment (c0 : list byte) : option (dkind * list rule) :=
+  let c := trim_space c0 in       (* a line comment of a CRLF file carries the carriage return *)
   let body := trim_left_cut c in
   let body := if has_prefix [x2f; x2a] c then trim_suffix_close body else body in
   let '(w, rest) := cut_space body in
